@@ -81,6 +81,10 @@ RELOCATABLE = [
     f"{OPT}.can_fuse_predecessors",
     f"{OPT}.fuse_predecessors",
     f"{OPT}.predecessor_ops_and_arrays",
+    f"{OPS}._rechunk_plan",
+    "cubed.core.rechunk._fix_copy_chunks",
+    "cubed.core.rechunk._multspace",
+    "cubed.core.rechunk.calculate_regular_stage_chunks",
 ]
 
 # Renamed private helpers are found by the role they play: {anchor: (stable caller, strings that
@@ -102,6 +106,9 @@ ROLE_OF.update(
         f"{CREATION}._like_args": (f"{CREATION}.zeros_like", ("chunks", "spec", "dtype")),
         f"{PLAN}.Plan._create_lazy_zarr_arrays": (f"{PLAN}.Plan._finalize", ("LazyZarrArray", "create_zarr_arrays")),
         f"{PLAN}.delete_on_exit": (f"{PLAN}.intermediate_store", ("atexit", "rmtree")),
+        "cubed.core.rechunk._fix_copy_chunks": ("cubed.core.rechunk.multistage_regular_rechunking_plan", ("Mod()", "FloorDiv()", "zip")),
+        "cubed.core.rechunk._multspace": ("cubed.core.rechunk.multspace", ("geomspace",)),
+        f"{OPS}._rechunk_plan": (f"{OPS}.rechunk", ("Yield", "allow_irregular")),
     }
 )
 
